@@ -24,7 +24,7 @@ type val struct {
 
 func Run(r *core.Run) {
 	r.Rule = "~400 JSON texts (trees depth<=2, strings over boundary code points, boundary numbers, re-serializations) as []byte and as Go values; " +
-		"all ordered pairs x {sha2-256, sha2-512}: validate(v, hash(w)) succeeds <=> v == w; every code 0..0x120 + table entries; every subset of {17,18,19,22}; " +
+		"all ordered pairs x {sha2-256, sha2-512}: validate(v, hash(w)) succeeds <=> v == w; every code 0..0x120 + table entries; every subset of {17,18,19,22} in every order and with repeated entries; " +
 		"malformed encodings: every position x 7 foreign characters, length field +-1, digest truncated at every length, appended bytes, empty, unknown/unsupported code; " +
 		"distinct = distinct (value pair class, algorithm, verdict) and distinct malformed strings; non-trivial = pairs of different texts"
 	r.Assumptions = []string{"reference multihash and JCS (ref/mh, ref/jcs) are correct", "JSON value equality decided on encoding/json-decoded values (numbers as doubles)"}
@@ -180,6 +180,18 @@ func Run(r *core.Run) {
 		}
 		subsets = append(subsets, s)
 	}
+	// ... in every order (a protocol lists its algorithms in order of preference, not of code), and with repeated entries
+	var arrange func(prefix []uint, rest []uint)
+	arrange = func(prefix []uint, rest []uint) {
+		if len(prefix) > 1 {
+			subsets = append(subsets, append([]uint{}, prefix...))
+		}
+		for i, x := range rest {
+			arrange(append(append([]uint{}, prefix...), x), append(append([]uint{}, rest[:i]...), rest[i+1:]...))
+		}
+	}
+	arrange(nil, all)
+	subsets = append(subsets, []uint{18, 18}, []uint{19, 18, 19}, []uint{22, 22, 17, 17}, []uint{19, 19, 18})
 	sha1 := mh.Enc(mh.Raw(17, make([]byte, 20)))
 	blake := mh.Enc(mh.Raw(22, make([]byte, 64))) // sha3-256 code 0x16
 	probes := []struct {
